@@ -2,7 +2,7 @@
 worktree (uncommitted), run the unedited test suite (tools/baseline.py) and ./check C19, revert.
 usage: /venv/bin/python notes/C19_mutate.py [mutation names]   (results: notes/C19.md)"""
 import subprocess, sys, os, json
-REPO='/tmp/wp/i18n/repo'; VERIF='/tmp/wp/i18n/verif'
+REPO='/tmp/wp/i18n2/repo'; VERIF='/tmp/wp/i18n2/verif'
 F=os.path.join(REPO,'genshi/filters/i18n.py')
 MUTS={
  'M1-no-xml-lang': ("                if tag in self.ignore_tags or \\\n                        isinstance(attrs.get(xml_lang), six.string_types):\n                    skip += 1\n                    yield kind, data, pos\n                    continue",
@@ -35,6 +35,12 @@ MUTS={
  'N9-choose-context-swapped': ("        yield contextify(self.lineno, 'ngettext', \\\n            (singular_msgbuf.format(), plural_msgbuf.format()), \\", "        yield contextify(self.lineno, 'ngettext', \\\n            (plural_msgbuf.format(), singular_msgbuf.format()), \\"),
  'N10-code-no-nested-calls': ("        if node._fields:\n            children = []", "        elif node._fields:\n            children = []"),
  'N11-starred-in-place': ("        return _new(_ast.Starred, self.visit(node.value), node.ctx)\n", "        node.value = self.visit(node.value)\n        return node\n"),
+ # --- wave 4 (work package i18n2): directive combinations on an element without a message directive
+ 'P1-second-loop-skips-py-directives': ("                    else:\n                        for message in self.extract(\n                                substream, gettext_functions,\n                                search_text=search_text and not skip,\n                                comment_stack=comment_stack,\n                                context_stack=context_stack):\n                            yield message\n\n                if in_comment:", "                    elif isinstance(directive, I18NDirective):\n                        for message in self.extract(\n                                substream, gettext_functions,\n                                search_text=search_text and not skip,\n                                comment_stack=comment_stack,\n                                context_stack=context_stack):\n                            yield message\n\n                if in_comment:"),
+ 'P2-comment-alone-test': ("                        comment_stack.append(directive.comment)\n                        if len(directives) == 1:", "                        comment_stack.append(directive.comment)\n                        if len(directives) == 2:"),
+ 'P3-second-loop-no-text': ("                    else:\n                        for message in self.extract(\n                                substream, gettext_functions,\n                                search_text=search_text and not skip,\n                                comment_stack=comment_stack,\n                                context_stack=context_stack):\n                            yield message\n\n                if in_comment:", "                    else:\n                        for message in self.extract(\n                                substream, gettext_functions,\n                                search_text=False,\n                                comment_stack=comment_stack,\n                                context_stack=context_stack):\n                            yield message\n\n                if in_comment:"),
+ 'P4-ctxt-pop-takes-next': ("                                    context_stack=context_stack):\n                                yield message\n                        directives.pop(idx)\n                    elif not isinstance(directive, I18NDirective):", "                                    context_stack=context_stack):\n                                yield message\n                        directives.pop(idx)\n                        del directives[idx:idx + 1]\n                    elif not isinstance(directive, I18NDirective):"),
+ 'R4-harmless-copy': ("                directives = list(directives)\n                in_comment = False", "                directives = directives[:]\n                in_comment = False"),
  'R3-harmless-swap-escapes': ("                data = data.replace('[', r'\\[').replace(']', r'\\]')\n", "                data = data.replace(']', r'\\]').replace('[', r'\\[')\n"),
  'T1-table-drop-style': ("        QName('style'), QName('http://www.w3.org/1999/xhtml}style')\n", "        QName('http://www.w3.org/1999/xhtml}style')\n"),
  'T2-table-drop-title': ("        'abbr', 'alt', 'label', 'prompt', 'standby', 'summary', 'title',\n", "        'abbr', 'alt', 'label', 'prompt', 'standby', 'summary',\n"),
